@@ -548,6 +548,28 @@ func c11run(w *report.W) {
 		}
 	}
 
+	// values that contain separators (a tuple compared as joined text would confuse ("x,y", "z") with ("x", "y,z")):
+	// two dimensions, every setup over two such values, one adjustment over four, every permutation over four
+	{
+		sepVals := []string{"x", "x,y", "y,x", "y", "x y", "x\x00y"}
+		dims := []string{"os", "arch"}
+		for _, s1 := range [][]string{{"x"}, {"x,y", "y"}} {
+			for _, a1 := range sepVals {
+				for _, a2 := range sepVals {
+					for _, skip := range []any{nil, true} {
+						m := c11matrix{Dims: dims, Setup: map[string][]string{"os": s1, "arch": {"y", "y,x"}}, Adjs: []c11adj{{With: map[string]string{"os": a1, "arch": a2}, Skip: skip}}}
+						m.canon = c11mcanon(m)
+						for _, p1 := range sepVals {
+							for _, p2 := range sepVals {
+								run(c11case{M: m, Perm: map[string]string{"os": p1, "arch": p2}, Via: "direct"})
+							}
+						}
+					}
+				}
+			}
+		}
+	}
+
 	// nil dimension lists: no panic only
 	for _, p := range []map[string]string{{}, {"os": "a"}, {"os": "a", "arch": "a"}} {
 		cs := fmt.Sprintf("nil-list setup perm=%v", p)
@@ -623,7 +645,7 @@ func init() {
 	register(&report.Check{
 		ID: "C11",
 		Rule: "small scope fully open: matrices with an anonymous dimension, 0-2 (3 in the restricted scopes) named dimensions over {os,arch,v}, every value list ⊆ {a,b} incl. empty, " +
-			"0-2 adjustments each a tuple over {a,b,c} or malformed (missing / extra / renamed dimension) x skip in {absent,false,true,a reason string,the string \"false\"}, nil matrix; long disjoint value lists (2..65 values per dimension, 2-3 dimensions; each dimension given its own first / last value, another dimension's, the adjustment's, an unknown one; under every explored iteration order); x every permutation " +
+			"0-2 adjustments each a tuple over {a,b,c} or malformed (missing / extra / renamed dimension) x skip in {absent,false,true,a reason string,the string \"false\"}, nil matrix; values containing commas / spaces / NUL in two dimensions (all adjustment and permutation tuples over six such values); long disjoint value lists (2..65 values per dimension, 2-3 dimensions; each dimension given its own first / last value, another dimension's, the adjustment's, an unknown one; under every explored iteration order); x every permutation " +
 			"= every map from every subset of (dimensions + one unknown) to {a,b,c} and the empty/nil one; built directly and (for <=N adjustments) through Parse of rendered YAML; " +
 			"verdict compared with the predicate of the statement through the public InterpolateMatrixPermutation; on reject deep snapshot + JSON unchanged; on accept the command " +
 			"carries the values. Seam: every iteration order of the four range loops for a 2-dimension sub-scope. Non-trivial = has adjustments and a non-empty permutation.",
